@@ -437,6 +437,11 @@ func (x *fx) initKeepAll() {
 	x.curMem = x.entryMem
 	env := x.paramEnv(x.entryMem)
 	for _, e := range keeps {
+		if mentionsCell(e) {
+			// the cell of a local variable does not exist at function entry
+			x.keepAllLocal = append(x.keepAllLocal, e)
+			continue
+		}
 		func() {
 			defer func() {
 				if r := recover(); r != nil {
@@ -450,6 +455,21 @@ func (x *fx) initKeepAll() {
 		}()
 	}
 	x.curMem = save
+}
+
+func mentionsCell(e *Expr) bool {
+	if e == nil {
+		return false
+	}
+	if e.Op == "call" && len(e.Args) > 0 && e.Args[0].Op == "id" && e.Args[0].Name == "cell" {
+		return true
+	}
+	for _, a := range e.Args {
+		if mentionsCell(a) {
+			return true
+		}
+	}
+	return false
 }
 
 func (x *fx) staticCall(f *ssa.Function, bindings []ssa.Value, cc *ssa.CallCommon, rt types.Type, set func(*Val)) {
